@@ -26,6 +26,11 @@ def main():
     props = sys.argv[2:]
     patch = os.path.join(sd, "patch.diff")
     res = {"seed": os.path.basename(sd), "checks": {}}
+    if os.path.exists(os.path.join(sd, "result.json")):
+        try:
+            res["checks"] = json.load(open(os.path.join(sd, "result.json"))).get("checks", {})
+        except Exception:
+            pass
     rc, out = sh(["git", "-C", REPO, "status", "--porcelain", "--untracked-files=no"])
     if out.strip():
         print("refusing: /repo has uncommitted changes:\n" + out)
